@@ -123,6 +123,14 @@ def obligations(prop, log, tier="quick"):
             broken.append("leanchecker rejected %s: %s" % (module, out[-300:]))
         else:
             log.append("leanchecker accepted " + module)
+        # one environment for everything: all property modules of all properties import together (no name is defined
+        # twice, no theorem silently shadows another)
+        if os.path.exists(os.path.join(LEAN, "Phil", "Props", "All.lean")):
+            rc, out = sh(["lake", "build", "Phil.Props.All"], cwd=LEAN, timeout=1500)
+            if rc != 0:
+                broken.append("the umbrella import Phil.Props.All does not build: " + out[-300:])
+            else:
+                log.append("umbrella import of every property module builds")
     return len(theorems), discharged, broken, theorems
 
 
